@@ -2,6 +2,7 @@ package drivers
 
 import (
 	"bytes"
+	"time"
 	"context"
 	"encoding/json"
 	"errors"
@@ -154,7 +155,28 @@ func TestC15Stream(t *testing.T) {
 				bl := bs[i%len(bs)]
 				i++
 				buf := make([]byte, bl)
-				n, err := rd.Read(buf)
+				// a Read that blocks although unread bytes were written
+				// means bytes were lost inside the connection
+				type rres struct {
+					n   int
+					err error
+				}
+				rc := make(chan rres, 1)
+				go func() {
+					n, err := rd.Read(buf)
+					rc <- rres{n, err}
+				}()
+				var n int
+				var err error
+				select {
+				case x := <-rc:
+					n, err = x.n, x.err
+				case <-time.After(4 * time.Second):
+					n, err = 0, errors.New("blocked: Read does not return although written bytes are unread")
+					if c, ok := rd.(io.Closer); ok {
+						c.Close()
+					}
+				}
 				match := 1
 				k := n
 				if k > bl {
